@@ -736,6 +736,53 @@ def main():
                               'theorems': 'C16_read_pure / C16_read_repeat'})
                 break
     ck.cov['cached_bounds_membership_probes'] = sliver_n
+    # VI. shapes DERIVED from the receiver (to_polygon, circumscribing_circle, circumscribing_rectangle, a hull of a multi-shape,
+    # copy) carry the receiver's time bounds and properties AS THEY ARE NOW: every derivation is asked once (which may leave a
+    # remembered result behind), the receiver is updated in place, and the derivations are asked again and compared - time
+    # bounds, user properties, the `properties` view - with those of a freshly constructed twin in the new state.
+    # (Geometry of the derived shape is not compared: the enclosing-circle search is randomised.)
+    DERIVE = [('to_polygon', lambda x: x.to_polygon()), ('circumscribing_circle', lambda x: x.circumscribing_circle()),
+              ('circumscribing_rectangle', lambda x: x.circumscribing_rectangle()), ('convex_hull', lambda x: x.convex_hull()),
+              ('copy', lambda x: x.copy())]
+
+    def dview(r):
+        if r[0] != 'Ok':
+            return r[:2]
+        d = r[1]
+        return ('Ok', type(d).__name__, of_dt(d.dt), canon(dict(d._properties)), canon(d.properties))
+    der_n, der_bad = 0, []
+    for kind in KINDS:
+        for rep_ in range(4 if not thorough else 30):
+            nh = rng.choice([0, 1]) if has_holes(kind) else 0
+            a = rng.randint(-2, 3)
+            d0 = rng.choice([[a * H, a * H], [a * H, (a + 2) * H]])
+            p0 = [(k, rng.randint(0, 9)) for k in rng.sample(range(4), rng.choice([0, 1, 2]))]
+            for upd in ('strip_dt', 'set_dt_none', 'set_dt', 'buffer_dt', 'set_property'):
+                x = construct(kind, nh, d0, p0)
+                for _nm, f in DERIVE:
+                    call(lambda: f(x))
+                if upd == 'strip_dt':
+                    x.strip_dt()
+                elif upd == 'set_dt_none':
+                    x.set_dt(None)
+                elif upd == 'set_dt':
+                    x.set_dt(mk_dt([(a + 5) * H, (a + 6) * H]))
+                elif upd == 'buffer_dt':
+                    x.buffer_dt(timedelta(hours=1))
+                else:
+                    x.set_property('k9', 99)
+                fresh = construct(kind, nh, of_dt(x.dt), [(int(k[1:]), v) for k, v in x._properties.items()])
+                for nm, f in DERIVE:
+                    der_n += 1
+                    got, want = dview(call(lambda: f(x))), dview(call(lambda: f(fresh)))
+                    if got != want:
+                        der_bad.append({'kind': kind, 'nholes': nh, 'dt0': d0, 'props0': p0, 'history': [n_ for n_, _ in DERIVE] + [upd, nm],
+                                        'derived_after_update': str(got)[:300], 'derived_from_fresh_twin': str(want)[:300]})
+    for b in der_bad[:3]:
+        ck.violation({'kind': 'property-fails-on-implementation', 'case': b,
+                      'detail': 'a shape derived from the updated receiver differs (time bounds / properties) from the one derived from a freshly constructed twin',
+                      'theorems': 'C16_obs_as_fresh'})
+    ck.cov['derived_after_update_checks'] = der_n
     ck.finish(rule='histories: per shape kind (11 kinds, 0-2 holes, dt None/instant/interval, 0-2 properties) seeded sequences of 1-8 '
                    'operations drawn from 10 reads, to_polygon, set_dt / buffer_dt / strip_dt / set_property in both inplace modes '
                    '(buffers include negative ones that invert the interval, buffer_dt without dt); after EVERY operation: model '
